@@ -556,8 +556,17 @@ pub fn random_pcsaft_record(g: &mut Gen, k: usize) -> Value {
         mr["kappa_ab"] = json!(g.log_range(1e-3, 0.2));
         mr["epsilon_k_ab"] = json!(g.range(1000.0, 3500.0));
         // na/nb/nc in {0,1,2}; at least one A-B pair or a C site
-        let scheme = g.index(5);
-        let (na, nb, nc) = [(1.0, 1.0, 0.0), (2.0, 1.0, 0.0), (2.0, 2.0, 0.0), (0.0, 0.0, 1.0), (1.0, 1.0, 1.0)][scheme];
+        // incl. acceptor-only / donor-only components (association only induced by a partner)
+        let scheme = g.index(7);
+        let (na, nb, nc) = [
+            (1.0, 1.0, 0.0),
+            (2.0, 1.0, 0.0),
+            (2.0, 2.0, 0.0),
+            (0.0, 0.0, 1.0),
+            (1.0, 1.0, 1.0),
+            (1.0, 0.0, 0.0),
+            (0.0, 1.0, 0.0),
+        ][scheme];
         mr["na"] = json!(na);
         mr["nb"] = json!(nb);
         mr["nc"] = json!(nc);
